@@ -37,6 +37,10 @@ func runAgainstSink(w *Workload, s *faultSink) (res []apiResult) {
 		err := pw.Write()
 		res = append(res, apiResult{s.api, err})
 	}
+	for j := 0; j < w.Pending; j++ {
+		pw.Add(vt.Build(f.Root, w.Records[i], false).Interface())
+		i++
+	}
 	s.api = "Close"
 	res = append(res, apiResult{"Close", pw.Close()})
 	return res
@@ -147,8 +151,14 @@ var c09Fixtures = []string{"tiny", "flat24", "nest"}
 func TestC09(t *testing.T) {
 	cfg := wlCfg{fixtures: fixturesFromEnv(c09Fixtures), maxRecs: envInt("VERIF_MAXRECS", 10), gen: vt.DefaultGen}
 	cfg.gen.MaxList = 3
+	cfg.gen.LongStr = 40000 // now and then a page body beyond 32 KiB
 	rapid.Check(t, func(t *rapid.T) {
 		w := genWorkload(t, cfg)
+		if len(w.Records) > 1 && rapid.IntRange(0, 3).Draw(t, "pendingAtClose") == 0 {
+			// the last batch is added but never written: Close runs with records pending
+			w.Pending = w.Batches[len(w.Batches)-1]
+			w.Batches = w.Batches[:len(w.Batches)-1]
+		}
 		if len(w.Batches) > 3 {
 			// keep histories short: merge the tail
 			n := 0
